@@ -412,6 +412,9 @@ def h_receive(ctx, enctype, outcome, payload):
         # a member's first message to a group: the sender key travels in a pairwise envelope, the content under the sender key, in ONE stanza
         plaintext = {"pkmsg": _payload("key-distribution-only"), "msg": _payload("key-distribution-only"), "skmsg": _payload(payload)}
     st, bottom, app, mgr, sl, rl = _stack(ctx, sessions=True, outcome=outcome, plaintext=plaintext)
+    if outcome in ("invalid-message", "invalid-key-id") or (outcome == "no-session" and enctype == "skmsg"):
+        # the account's own registration id travels in every retry request: any 31-bit value (ids with 7, 8, 1 hex digits)
+        mgr.registration_id = ctx.choice("own_registration_id", [4242, 0x50a759b, 0x7fffffff, 1, 0x10000000])
     N = SC.N()
     group = enctype in ("skmsg", "pkmsg+skmsg") or "key-distribution" in payload or ctx.flag("in_group")      # sender keys are distributed in group context
     mid, sender = H.zstr(ctx, "id"), _jid(ctx, "from", group)
@@ -457,6 +460,8 @@ def h_receive(ctx, enctype, outcome, payload):
         if len(receipts) == 1:
             r = receipts[0]
             obs.append(("retry receipt type", SC.val_eq(hooks.dict_get(r.attributes, "type"), "retry")))
+            reg = r.getChild("registration")
+            obs.append(("retry receipt carries the own registration id as 4 big-endian bytes", reg is not None and H.rope_eq(reg.data, mgr.registration_id.to_bytes(4, "big")) is True))
             obs.append(("retry receipt id", SC.val_eq(hooks.dict_get(r.attributes, "id"), mid)))
             # the server delivers the same message again and it still cannot be decrypted: one more retry request
             mgr.outcome = outcome
